@@ -993,6 +993,9 @@ M("c12-resolve-stops-after-first-builder", "C12", ["C12.allproviders"],
 
 M("c18-f34-reintroduced", ["C18"], ["C18.initial"],
   E(DIA, '    initial_node_id = ".initial"', '    initial_node_id = "i"'))
+M("c02-f35-reintroduced", ["C02", "C12"], ["C02.once", "C12.same-path"],
+  E(CB, """        # a snapshot: a callback may attach a listener (`add_listener`), which adds to `items`
+        return iter(tuple(self.items))""", """        return iter(self.items)"""))
 M("c08-f33-reintroduced", ["C08"], ["C08.when"],
   E(DISP, "        except (SyntaxError, UnsupportedExpression) as err:", "        except SyntaxError as err:"))
 M("c08-compare-lookup-unguarded", ["C08"], ["C08.when"],
